@@ -28,7 +28,8 @@ RULE = ("cases: every type expression with <=3 wrappers over the 5 specified sca
         "camel-case transform, `fields` setter, clone; one or two steps), checked against the derived schema's own declaration with the source's values "
         "in the stream, then the source again — including NEUTRAL derivations (unrelated extend_schema, clone, identity visibility transform), "
         "extend enum / extend input, with enums whose internal values are falsy (0, False, \"\") and non-identity custom scalars: the same requests "
-        "must hand the resolvers the source's internal values; plus TREES: nested selections over an interface with two implementations that give the field "
+        "must hand the resolvers the source's internal values; a DETERMINISTIC probe (own fixed PRNG) applies every derivation kind once to the fixed source "
+        "WITHOUT declared enum defaults and compares enum internal values and the python names of kept / camel-renamed input fields and arguments; plus TREES: nested selections over an interface with two implementations that give the field "
         "different argument sets/defaults, lists of objects, resolver errors, arguments rejected at depth 2-5; non-trivial = distinct (registry, argument type, default, route, value) whose value is not a "
         "bare scalar-at-scalar success (i.e. involves null, a wrapper, an enum, an input object, a boundary or a rejection)")
 ASSUMPTIONS = [
@@ -1914,6 +1915,65 @@ def run_code_defaults(ctx):
                                   "kwargs": repr(kw)})
 
 
+def run_enum_identity(ctx):
+    """Enum members whose internal value has IDENTITY semantics (a plain object: hashable, no __eq__, mutable) or cannot be copied at all
+    (a lock): "enum names are replaced by their internal values" means the resolver gets THAT object - not a copy of it - inline, through a
+    variable, as a list item, inside an input object, from a declared default, and on every one of several executions of the same field
+    node (list of parents). Found by an outside probe (round-4 seeder note C07/1): the per-execution argument copy deep-copied leaves.
+    Named probe, no randomness."""
+    import threading
+    from py_gql import graphql_blocking
+    from py_gql.schema import Argument, EnumType, Field, InputField, InputObjectType, ListType, NonNullType, ObjectType, Schema, String
+
+    class Obj(object):
+        pass
+    for kind, internal in (("plain-object", Obj()), ("uncopyable-lock", threading.Lock())):
+        other = Obj()
+        E = EnumType("IE", [("A", internal), ("B", other)])
+        In = InputObjectType("IIn", [InputField("e", E), InputField("d", E, default_value=internal), InputField("l", ListType(NonNullType(E)))])
+        seen = []
+
+        def rec(root, c, info, **kw):
+            seen.append(kw)
+            return "ok"
+        Item = ObjectType("IItem", [Field("g", String, args=[Argument("v", E)], resolver=rec)])
+        schema = Schema(query_type=ObjectType("Query", [
+            Field("f", String, args=[Argument("v", E), Argument("l", ListType(E)), Argument("i", In), Argument("d", E, default_value=internal)], resolver=rec),
+            Field("items", ListType(Item), resolver=lambda *a, **k: [{}, {}, {}]),
+        ]))
+        routes = [
+            ("inline", "{ f(v: A) }", {}, lambda kw: [kw.get("v")]),
+            ("variable", "query($v: IE) { f(v: $v) }", {"v": "A"}, lambda kw: [kw.get("v")]),
+            ("list-item", "{ f(l: [A, A]) }", {}, lambda kw: list(kw.get("l") or [None])),
+            ("list-variable", "query($l: [IE]) { f(l: $l) }", {"l": ["A"]}, lambda kw: list(kw.get("l") or [None])),
+            ("input-field", "{ f(i: {e: A, l: [A]}) }", {}, lambda kw: [(kw.get("i") or {}).get("e")] + list((kw.get("i") or {}).get("l") or [None])),
+            ("input-variable", "query($i: IIn) { f(i: $i) }", {"i": {"e": "A"}}, lambda kw: [(kw.get("i") or {}).get("e"), (kw.get("i") or {}).get("d")]),
+            ("argument-default", "{ f }", {}, lambda kw: [kw.get("d")]),
+            ("repeated-node", "{ items { g(v: A) } }", {}, lambda kw: [kw.get("v")]),
+        ]
+        for route, doc, variables, pick in routes:
+            seen[:] = []
+            ctx.count()
+            try:
+                res = graphql_blocking(schema, doc, variables=variables)
+                errs = [str(e) for e in (res.errors or [])]
+            except Exception as e:  # noqa
+                ctx.fail("non-coercion-exception:%s:enum-identity:%s:%s" % (type(e).__name__, kind, route),
+                         "a request whose enum argument maps to a declared internal value raised out of the entry point",
+                         {"check": "enum-identity", "kind": kind, "route": route, "document": doc, "variables": variables, "error": repr(e)})
+                continue
+            got = [x for kw in seen for x in pick(kw)]
+            want = 3 if route == "repeated-node" else 1
+            ctx.stat("enum-identity:%s:%s" % (kind, route))
+            if errs or len(seen) < want or not got or any(x is not internal for x in got):
+                ctx.fail("nonconforming-argument:enum-internal-value-not-identical:%s:%s" % (kind, route),
+                         "the resolver did not receive the enum member's declared internal value itself (a copy, or an error instead)",
+                         {"check": "enum-identity", "kind": kind, "route": route, "document": doc, "variables": variables,
+                          "errors": errs, "resolver_calls": len(seen), "identical": [x is internal for x in got]})
+            else:
+                ctx.nontrivial(("enum-identity", kind, route))
+
+
 def World_ty_of(t):
     from py_gql.schema import ListType, NonNullType
     if isinstance(t, ListType):
@@ -2098,6 +2158,7 @@ def run(ctx):
     run_stand_in_scalar(ctx)
     run_stand_in_variables(ctx)
     run_code_defaults(ctx)
+    run_enum_identity(ctx)
     run_nested_vars(ctx)
     run_collisions(ctx)
     run_pynum(ctx, ctx.n(2000, 15000))
@@ -2154,6 +2215,10 @@ def replay(ctx, data, record=False):
     if inp.get("check") == "code-default":
         c2 = type(ctx)(ctx.prop, ctx.tier, ctx.seed)
         run_code_defaults(c2)
+        return not any(f["signature"] == data.get("signature") for f in c2.found)
+    if inp.get("check") == "enum-identity":
+        c2 = type(ctx)(ctx.prop, ctx.tier, ctx.seed)
+        run_enum_identity(c2)
         return not any(f["signature"] == data.get("signature") for f in c2.found)
     if inp.get("check") == "stand-in":
         c2 = type(ctx)(ctx.prop, ctx.tier, ctx.seed)
